@@ -370,6 +370,30 @@ func runC07(c *core.Ctx, ck *Check) {
 					w.Count("whole_cluster_lists", 1)
 				}
 			}
+			if n%10 == 6 && len(sortedIdx) >= 16 {
+				// nearly sorted input: 13..40 distinct members in descending (or ascending) order with the last one, two or
+				// three out of place - "already sorted" fast paths check all pairs but the ones they forget
+				ln := 13 + r.IntN(28)
+				if ln > len(sortedIdx) {
+					ln = len(sortedIdx)
+				}
+				at := r.IntN(len(sortedIdx) - ln + 1)
+				ns := make([]string, 0, ln)
+				for x := 0; x < ln; x++ {
+					ns = append(ns, p.Strs[sortedIdx[at+x]])
+				}
+				if r.IntN(4) != 0 {
+					for a, b := 0, len(ns)-1; a < b; a, b = a+1, b-1 {
+						ns[a], ns[b] = ns[b], ns[a]
+					}
+				}
+				for k := 1 + r.IntN(3); k > 0; k-- {
+					x := len(ns) - 1 - r.IntN(3)
+					ns[x] = p.Strs[sortedIdx[at+r.IntN(ln)]]
+				}
+				list = ns
+				w.Count("nearly_sorted_lists", 1)
+			}
 			_, orig, ok := sortInProcess(e, list)
 			if !ok {
 				continue
@@ -720,6 +744,30 @@ func runC15(c *core.Ctx, ck *Check) {
 						} else {
 							argv = append(argv, ver())
 						}
+					}
+					if e := eco.ByName(j.name); e != nil && r.IntN(6) == 0 {
+						// a newest-first listing of 13..30 versions with a candidate appended
+						var vs []eco.Ver
+						var ss []string
+						for t := 0; t < 200 && len(ss) < 13+r.IntN(18); t++ {
+							x := gen.One(gname, r)
+							if v, err, pn := e.SafeNewVersion(x); pn == nil && err == nil && v != nil && !strings.HasPrefix(x, "-") && strings.TrimSpace(x) == x && x != "" {
+								vs, ss = append(vs, v), append(ss, x)
+							}
+						}
+						idx := make([]int, len(ss))
+						for x := range idx {
+							idx[x] = x
+						}
+						sort.SliceStable(idx, func(a, b int) bool { c, _ := eco.SafeCompare(vs[idx[a]], vs[idx[b]]); return c > 0 })
+						argv = argv[:2]
+						for _, x := range idx {
+							argv = append(argv, ss[x])
+						}
+						if len(ss) > 3 {
+							argv = append(argv, ss[idx[len(idx)/2]], ss[idx[1]])[:len(argv)+1+r.IntN(2)]
+						}
+						cnt = 0
 					}
 					if cnt > 6 && r.IntN(3) == 0 {
 						argv = append(argv, "not a version @@")
